@@ -107,6 +107,8 @@ Definition w_exc (p : wpc) : bool :=
   match p with WHwEP _ | WHwEW _ | WHwEPk _ _ | WHwEN _ => true | _ => false end.
 Definition w_above (p : wpc) : bool :=
   match p with WHwLP _ | WHwLW _ => true | _ => false end.
+Definition w_loopc (p : wpc) : bool :=
+  match p with WHwL2 _ | WHwLP _ | WHwLW _ => true | _ => false end.
 Definition parked_conn (p : wpc) : bool :=
   match p with WHwLPk _ | WHwEPk _ true => true | _ => false end.
 
@@ -128,6 +130,7 @@ Definition winv_b (c : cfg) (s : state) (j : nat) (p : wpc) : bool :=
   negb (w_sc p) &&
   imp (w_exc p) (wc s) &&
   imp (w_above p) (hw c <? total s) &&
+  imp (w_loopc p) (conn s) &&
   imp (match p with WHwEW _ => true | _ => false end) (closed s || pulled s || cov_wc (io s)) &&
   imp (match p with WHwLW _ => true | _ => false end) (closed s || pulled s || cov_tot (io s)) &&
   imp (match p with WHwLPk _ => true | _ => false end) ((hw c <=? total s) || io_will_notify (io s) || io_close_notify (io s) (wc s)) &&
